@@ -1,6 +1,7 @@
 """C07 -- re-rooting and concatenation preserve structure and geometry: sidecar contracts.
 
-Carriers (swcgeom/core/tree_utils.py): redirect_tree, cat_tree, _sort_tree.
+Carriers (swcgeom/core/tree_utils.py): redirect_tree, cat_tree (fixed small sizes AND symbolic sizes of both trees), _sort_tree;
+sort_nodes_impl by a checked REFINEMENT of the contract proved under C05 (no longer assumed); Tree.Node.is_root / children.
 """
 import z3
 
